@@ -21,6 +21,7 @@
    Float rounding is not modelled: the theorems are about exact rational arithmetic. *)
 From Coq Require Import QArith Qabs ZArith List Bool Permutation.
 From SF Require Import Base.GeomAST Model.Measure Proofs.Measure_proofs.
+From SF Require Import Model.MeasureScale Proofs.Measure_scale.
 From SF Require Base.QKernel Base.Planar Model.SetOpSpec.
 From SF Require Import Proofs.Measure_slab.
 Import ListNotations.
@@ -296,6 +297,39 @@ Proof.
 Qed.
 Print Assumptions sqrt_scale_invariant.
 
+(* ------------------------------------------------------------------ scale equivariance *)
+
+(* multiplying every X and Y by c ([scale c], Z/M kept) multiplies Area by c^2 (any c, signed or
+   not, every type) ... *)
+Theorem area_scale_equivariant : forall (c : Q) (s : bool) (g : geomT Q),
+  geom_area s None (geom_tr (scale c) g) == c * c * geom_area s None g.
+Proof. exact geom_area_scale. Qed.
+Print Assumptions area_scale_equivariant.
+
+(* ... Length by c, when the root used on the scaled geometry is homogeneous with the one used on
+   the original, root' (c^2 x) = c root x (math.Sqrt with root' = root, c >= 0) ... *)
+Theorem length_scale_equivariant : forall (c : Q) (sq sq' : Q -> Q),
+  respects_eq sq' -> sqrt_homogeneous c sq sq' ->
+  forall g : geomT Q, geom_length sq' (geom_tr (scale c) g) == c * geom_length sq g.
+Proof. exact geom_length_scale. Qed.
+Print Assumptions length_scale_equivariant.
+
+(* ... and Centroid by c, for c <> 0, whatever the size of the geometry: there is no hypothesis on
+   areas, lengths or ordinate magnitudes (areal, lineal and puntal geometries, collections; an
+   empty centroid stays empty).  A centroid that changes its rule below some absolute area or
+   length contradicts this. *)
+Theorem centroid_scale_equivariant : forall (c : Q) (sq sq' : Q -> Q),
+  respects_eq sq' -> sqrt_homogeneous c sq sq' -> ~ c == 0 ->
+  forall g : geomT Q, oxy_eq (geom_centroid sq' (geom_tr (scale c) g)) (oscale c (geom_centroid sq g)).
+Proof. exact geom_centroid_scale. Qed.
+Print Assumptions centroid_scale_equivariant.
+
+(* the hypotheses on the root are satisfiable for every root function and every factor c <> 0 *)
+Theorem sqrt_homogeneous_satisfiable : forall (c : Q) (sq : Q -> Q), respects_eq sq -> ~ c == 0 ->
+  let sq' := fun y => c * sq (y / (c * c)) in respects_eq sq' /\ sqrt_homogeneous c sq sq'.
+Proof. exact sqrt_homogeneous_witness. Qed.
+Print Assumptions sqrt_homogeneous_satisfiable.
+
 (* ------------------------------------------------------------------ the point set *)
 
 (* for EVERY closed ring (simple or not), in any arrangement (L, P) that contains its edges:
@@ -393,6 +427,33 @@ Proof.
       try (exfalso; Lia.lia); vm_compute; reflexivity. }
   split; [exact H|]. intros i j k A B C. apply Qlt_le_weak, H; assumption.
 Qed.
+(* scale equivariance on the right triangle (0 0, 4 0, 0 3) shrunk by 2^-22 (area 6 * 2^-44, below
+   1e-12): the centroid is still the areal one, (4/3, 1) * 2^-22, not the boundary's (3/2, 1) * 2^-22;
+   and in a collection next to a point and a line (root: the witness of sqrt_homogeneous_satisfiable) *)
+Definition ex_rtri : polyT Q := MkPoly XYZM [ln [(0,0);(4,0);(0,3);(0,0)]]%Z.
+Definition ex_c : Q := 1 # 4194304.
+Definition ex_sq' (y : Q) : Q := ex_c * ex_sq (y / (ex_c * ex_c)).
+Example ex_scale_hyps : respects_eq ex_sq' /\ sqrt_homogeneous ex_c ex_sq ex_sq' /\ ~ ex_c == 0.
+Proof.
+  assert (P : respects_eq ex_sq).
+  { intros a b Hab. unfold ex_sq. rewrite (Qeq_bool_eq a b 25 25 Hab (Qeq_refl _)). reflexivity. }
+  assert (N : ~ ex_c == 0) by (vm_compute; discriminate).
+  destruct (sqrt_homogeneous_satisfiable ex_c ex_sq P N) as [H1 H2]. repeat split; assumption.
+Qed.
+Example ex_scale_centroid :
+  oxy_eq (geom_centroid ex_sq' (geom_tr (scale ex_c) (GPoly ex_rtri))) (Some ((4 # 3) * ex_c, 1 * ex_c)) /\
+  geom_area false None (geom_tr (scale ex_c) (GPoly ex_rtri)) == 6 * ex_c * ex_c /\
+  oxy_eq (geom_centroid ex_sq' (geom_tr (scale ex_c)
+            (GColl XY [GPoint (MkPoint XY (Some (v 17 5))); GLine (ln [(0,0);(3,4)]%Z); GPoly ex_rtri])))
+         (Some ((4 # 3) * ex_c, 1 * ex_c)) /\
+  geom_length ex_sq' (geom_tr (scale ex_c) (GLine (ln [(0,0);(3,4)]%Z))) == 5 * ex_c /\
+  oxy_eq (geom_centroid ex_sq' (geom_tr (scale ex_c) (GLine (ln [(0,0);(3,4)]%Z)))) (Some ((3 # 2) * ex_c, 2 * ex_c)).
+Proof. vm_compute. repeat split; reflexivity. Qed.
+(* c <> 0 is needed: scaled by 0 a line has no length and its centroid is empty *)
+Example ex_scale_needs_nonzero :
+  geom_centroid ex_sq (geom_tr (scale 0) (GLine (ln [(0,0);(3,4)]%Z))) = None /\
+  geom_centroid ex_sq (GLine (ln [(0,0);(3,4)]%Z)) <> None.
+Proof. vm_compute. split; [reflexivity|discriminate]. Qed.
 (* the closedness hypothesis of the translation theorems is needed: an open vertex list *)
 Example ex_translate_needs_closed :
   ring_closedb [(0, 0); (1, 0); (1, 1)] = false /\
